@@ -60,6 +60,8 @@ def gen(r, tier, i):
              'shared_acc': r.random() < 0.5}
         if r.random() < 0.25:
             p['amount2'] = 10 * r.choice([1, 2, 5])      # a second port on the accumulator's node
+        elif not p['shared_acc'] and r.random() < 0.3:
+            p['reset_at'] = r.randint(0, 3)      # that invocation's update sets the accumulator to 1000 (names its own updater)
         if r.random() < 0.2:
             p['pair'] = True       # two dictionary ports on one store, update dictionaries built once and reused
         if r.random() < 0.25:
@@ -277,6 +279,9 @@ def check_acc(V, spec, row, present, amounts, T):
                     lambda: ('pair store of process %d at t=%r is %r, %d updates of x+=%r, y+=%r applied' % (p['pid'], T, got, cnt, a, 10 * a)))
         if not p.get('shared_acc'):
             exp = sum(amounts[pid] for pid, k in present if pid == p['pid'])
+            k0 = p.get('reset_at')
+            if k0 is not None and (p['pid'], k0) in present:
+                exp = 1000 + sum(amounts[pid] for pid, k in present if pid == p['pid'] and k > k0)
             got = row.get('acc', {}).get('p%d' % p['pid'])
             V.check('accumulator', got == exp,
                     lambda: ('accumulator of process %d at t=%r is %r, sum of applied updates %r' % (p['pid'], T, got, exp)))
